@@ -20,6 +20,22 @@ type requestStream struct {
 	reader          *bufio.Reader
 	totalBytesRead  int
 	chunkLeft       int
+	// chunkedDone is set once the last chunk and the trailer of a chunked body have been read.
+	chunkedDone bool
+}
+
+// drained reports whether the whole framed body has been taken off the wire,
+// i.e. whether the underlying reader is positioned at the next request.
+func (rs *requestStream) drained() bool {
+	contentLength := rs.header.ContentLength()
+	if contentLength == -1 {
+		return rs.chunkedDone
+	}
+	consumed := rs.totalBytesRead
+	if rs.prefetchedBytes != nil {
+		consumed = max(consumed, int(rs.prefetchedBytes.Size()))
+	}
+	return consumed >= contentLength
 }
 
 func (rs *requestStream) Read(p []byte) (int, error) {
@@ -38,6 +54,7 @@ func (rs *requestStream) Read(p []byte) (int, error) {
 				if err != nil && err != io.EOF {
 					return 0, err
 				}
+				rs.chunkedDone = true
 				return 0, io.EOF
 			}
 			rs.chunkLeft = chunkSize
@@ -98,6 +115,7 @@ func releaseRequestStream(rs *requestStream) {
 	rs.prefetchedBytes = nil
 	rs.totalBytesRead = 0
 	rs.chunkLeft = 0
+	rs.chunkedDone = false
 	rs.reader = nil
 	rs.header = nil
 	requestStreamPool.Put(rs)
